@@ -80,10 +80,10 @@ theorem updateConnectionID_nonempty {m : Manager} (h : Reach m) (hc : m.closed =
 
 /-- The shape of the code the next theorems rest on (regenerated from /repo): `Add` compares the queue length by `>=` with
     max(const, connIDLimit), `SetConnectionIDLimit` stores its argument, the spec-driven client passes the limit its
-    spec advertises. -/
+    spec advertises, the expiry callback of `ReplaceWithClosed` deletes only entries that still hold its own stand-in. -/
 theorem shape_facts :
     Uquic.Gen.ConnID.enforcedBoundIsGE = true ∧ Uquic.Gen.ConnID.enforcedBoundUsesConnIDLimit = true ∧ Uquic.Gen.ConnID.setConnectionIDLimitStores = true ∧
-    Uquic.Gen.ConnID.specClientSetsConnIDLimit = true := by decide
+    Uquic.Gen.ConnID.specClientSetsConnIDLimit = true ∧ Uquic.Gen.ConnID.expiryDeletesOnlyOwnHandler = true := by decide
 
 /-- Full strength: whatever limit `adv` the endpoint advertised — the plain constant, or the limit of a QUIC spec
     recorded with `SetConnectionIDLimit` — a NEW_CONNECTION_ID frame after which at most `adv` connection IDs are in
@@ -182,7 +182,7 @@ theorem initial_rinv (mk : Nat → Bytes) (idLen : Nat) (initial : Bytes) (cd : 
 theorem routing_exact (mk : Nat → Bytes) (idLen : Nat) (initial : Bytes) (cd : Option Bytes) (hne : cd ≠ some initial)
     (hf : FreshGen mk (initial :: cd.toList)) (ops : List GOp) (id : Bytes) :
     let s := runSys mk (Generator.new idLen initial cd) (initialRouting initial cd) ops
-    ((s.2.deliver id).2 = Delivery.conn ↔ id ∈ s.1.allIDs) := by
+    ((s.2.deliver id).2 = Delivery.conn 0 ↔ id ∈ s.1.allIDs) := by
   intro s
   have h : RInv mk (initial :: cd.toList) s.1 s.2 := run_rinv hf (initial_rinv mk idLen initial cd hne)
   constructor
@@ -198,7 +198,7 @@ theorem routing_exact (mk : Nat → Bytes) (idLen : Nat) (initial : Bytes) (cd :
     have hk := (h.exact id).mpr hin
     obtain ⟨kv, hkv, rfl⟩ := List.mem_map.mp hk
     have hconn := h.map.allConn kv hkv
-    have hl : lookupH kv.1 s.2.handlers = some Handler.conn := by
+    have hl : lookupH kv.1 s.2.handlers = some (Handler.conn 0) := by
       apply lookupH_of_mem h.map.nodup
       rw [← hconn]
       exact hkv
@@ -207,20 +207,38 @@ theorem routing_exact (mk : Nat → Bytes) (idLen : Nat) (initial : Bytes) (cd :
 
 /-- After the connection closes, every connection ID is removed once the closing period ends: `RemoveAll` (immediate
     close) leaves nothing at once; `ReplaceWithClosed` (local or remote close) maps every connection ID of the
-    connection to the closed stand-in, no packet reaches the connection any more, and after the expiry no handler
-    entry and no timer remains. -/
+    connection to the closed stand-in, no packet reaches any connection through them, and after the expiry no handler
+    entry and no timer remains. The expiry removes exactly the closed connection's own stand-in entries: if another
+    connection `c` registered one of these IDs in the meantime (with zero-length connection IDs every dial on the
+    transport uses the empty ID), that entry — and only it — is still there afterwards and receives its packets. -/
 theorem clean_after_close (mk : Nat → Bytes) (idLen : Nat) (initial : Bytes) (cd : Option Bytes) (hne : cd ≠ some initial)
     (hf : FreshGen mk (initial :: cd.toList)) (ops : List GOp) (localClose : Bool) (expiry : Int) :
     let s := runSys mk (Generator.new idLen initial cd) (initialRouting initial cd) ops
     let r1 := (s.1.replaceWithClosed localClose expiry).foldl Routing.applyG s.2
     (s.1.removeAll.foldl Routing.applyG s.2).handlers = [] ∧
     (∀ id ∈ s.1.allIDs, lookupH id r1.handlers = some (closedHandler s.2 localClose)) ∧
-    (∀ id, (r1.deliver id).2 ≠ Delivery.conn) ∧
-    (∀ d, expiry ≤ d → (r1.advance d).handlers = [] ∧ (r1.advance d).timers = []) := by
+    (∀ id c, (r1.deliver id).2 ≠ Delivery.conn c) ∧
+    (∀ d, expiry ≤ d → (r1.advance d).handlers = [] ∧ (r1.advance d).timers = []) ∧
+    (∀ id c d, expiry ≤ d →
+        (∀ kv, kv ∈ ((r1.install id c).advance d).handlers ↔ kv = (id, Handler.conn c)) ∧
+        (((r1.install id c).advance d).deliver id).2 = Delivery.conn c) := by
   intro s r1
   have h : RInv mk (initial :: cd.toList) s.1 s.2 := run_rinv hf (initial_rinv mk idLen initial cd hne)
   have hr := replace_clean h localClose expiry
-  exact ⟨removeAll_clean h, hr.1, hr.2.2.1, hr.2.2.2⟩
+  exact ⟨removeAll_clean h, hr.1, hr.2.2.1, hr.2.2.2, fun id c d hd => expiry_keeps_foreign h localClose expiry id c d hd⟩
+
+/-- In any handler map and at any time: an entry disappears at an expiry only if a due timer was armed for its ID
+    with exactly its handler, i.e. only a closed connection's own stand-in is ever removed by the timer. -/
+theorem expiry_removes_only_own (r : Routing) (d : Int) (kv : Bytes × Handler) (hin : kv ∈ r.handlers)
+    (hgone : kv ∉ (r.advance d).handlers) :
+    ∃ t ∈ r.timers, t.1 ≤ r.now + d ∧ kv.1 ∈ t.2.1 ∧ kv.2 = t.2.2 := by
+  apply Classical.byContradiction
+  intro hne
+  apply hgone
+  rw [advance_mem]
+  refine ⟨hin, ?_⟩
+  intro t ht hdue hc
+  exact hne ⟨t, ht, hdue, hc.1, hc.2⟩
 
 /-! ## the hypotheses are satisfiable by non-trivial histories -/
 
